@@ -58,6 +58,14 @@ def e1(n, lits):
     return out
 
 
+def starts_with_sign(e):
+    if e["op"] in ("neg", "pos"):
+        return True
+    if e["op"] in ("+", "-", "*", "/"):
+        return starts_with_sign(e["a"])
+    return False
+
+
 def rand_expr(rng, n, depth):
     A = atoms(n, [0, 1, 2, 3, 5, 7, 10, 100])
     if depth == 0 or rng.random() < 0.25:
@@ -80,8 +88,9 @@ def rand_expr(rng, n, depth):
         a = un("paren", a)
     if b["op"] in prec and prec[b["op"]] <= prec[o]:
         b = un("paren", b)
-    if b["op"] in ("neg", "pos"):
+    if starts_with_sign(b):
         b = un("paren", b)       # "a - -b" is legal C++ but not standard Fortran: outside the documented grammar
+                                 # (also when the sign is the first token of a product: "a + +5*2" would lex as "++")
     return bn(o, a, b)
 
 
